@@ -1183,7 +1183,8 @@ class Exec:
             if isinstance(op, ast.Mult):
                 return Val(ty, x * y)
             if isinstance(op, ast.Div):
-                self.safety(st, y != 0, f'division by zero at line {node.lineno}', node, spec)
+                if not getattr(self.ms, 'symbolic_division', False):
+                    self.safety(st, y != 0, f'division by zero at line {node.lineno}', node, spec)
                 if not real:
                     x, y = z3.ToReal(x), z3.ToReal(y)
                 return Val(TReal, x / y)
